@@ -5,9 +5,10 @@
    non-halting step, a child gets strictly less than its parent had, no frame deeper than
    CallCreateDepth+1, fuel above the gas is never exhausted). *)
 From Coq Require Import ZArith List Bool String Lia ZifyBool.
-From AQ Require Import Lib.Bytes Evm.OpsModel Evm.Interp Generated.GenJumpTables Generated.GenParamsInterp.
+From AQ Require Import Lib.Bytes Evm.OpsModel Evm.OpsProofsGas Evm.Interp Generated.GenJumpTables Generated.GenParamsInterp.
 Import ListNotations.
 Local Open Scope Z_scope.
+Set Default Timeout 40.
 
 (* ------------------------------------------------------------------ the tables *)
 
@@ -61,6 +62,7 @@ Definition cop_ok (c : cop) : bool :=
   negb (c_valid c) ||
   ((0 <=? gas_min (c_gas c)) && (c_halts c || c_reverts c || (1 <=? gas_min (c_gas c)))
    && compat (c_exec c) (c_gas c)
+   && (negb (is_call_exec (c_exec c) || match c_exec c with E_create => true | _ => false end) || (1 <=? gas_min (c_gas c)))
    && (negb (exec_writes (c_exec c)) || c_writes c)
    && (0 <=? c_pops c) && (0 <=? c_pushes c)).
 
@@ -97,7 +99,7 @@ Qed.
 
 (* ------------------------------------------------------------------ uint64 helpers *)
 
-Lemma two64_pos : 0 < two64. Proof. reflexivity. Qed.
+Lemma two64_pos : 0 < two64. Proof. rewrite two64_val. lia. Qed.
 Lemma wrap64_nonneg : forall x, 0 <= wrap64 x.
 Proof. intro x. unfold wrap64. apply Z.mod_pos_bound, two64_pos. Qed.
 Lemma wrap64_le : forall x, 0 <= x -> wrap64 x <= x.
@@ -107,9 +109,9 @@ Proof. intro x. unfold wrap64. apply Z.mod_pos_bound, two64_pos. Qed.
 
 Lemma SafeAdd_ok : forall x y r, SafeAdd x y = (r, false) -> 0 <= x -> 0 <= y -> r = x + y.
 Proof.
-  intros x y r H Hx Hy. unfold SafeAdd in H. injection H as Hr Ho.
-  subst r. unfold wrap64. apply Z.mod_small. unfold maxU64 in Ho. split; [lia|].
-  assert (y <= two64 - 1 - x) by lia. lia.
+  intros x y r H Hx Hy. rewrite SafeAdd_spec in H.
+  assert (H1 := f_equal fst H). assert (H2 := f_equal snd H). cbn [fst snd] in H1, H2.
+  subst r. apply wrap64_small. rewrite maxU64_val in H2. rewrite two64_val. lia.
 Qed.
 Lemma SafeAdd_nonneg : forall x y, 0 <= fst (SafeAdd x y).
 Proof. intros. unfold SafeAdd. cbn. apply wrap64_nonneg. Qed.
@@ -194,7 +196,7 @@ Proof.
   destruct (callGas _ avail gas cc) as [temp|?|] eqn:Hc; try discriminate.
   apply callGas_nonneg in Hc.
   destruct (SafeAdd gas temp) as [total o] eqn:Hs. destruct o; [discriminate|].
-  apply SafeAdd_ok in Hs; try lia. injection H as <-. cbn. lia.
+  apply SafeAdd_ok in Hs; try lia. injection H as <-. cbn. split; [lia | split; [lia | reflexivity]].
 Qed.
 
 (* what the proofs need to know about a successful gas function *)
@@ -222,28 +224,28 @@ Proof.
   - (* exp *) destruct (back _ 1); [|discriminate]. destruct (gasExp _ _) eqn:He; try discriminate.
     apply gasExp_lb in He. injection H as <-. cbn. unfold GasSlowStep in He. split; [lia | exact I].
   - (* sha3 *) destruct (back _ 1); [|discriminate]. apply lift_pair_inv in H as (c & l & Hr & ->).
-    apply gas_mem_words_lb in Hr; unfold Sha3Gas in *; cbn; split; try lia; exact I.
+    apply gas_mem_words_lb in Hr; [unfold Sha3Gas in *; cbn; split; [lia | exact I] | unfold Sha3Gas; lia].
   - destruct (back _ 2); [|discriminate]. apply lift_pair_inv in H as (c & l & Hr & ->).
-    apply gas_mem_words_lb in Hr; unfold GasFastestStep in *; cbn; split; try lia; exact I.
+    apply gas_mem_words_lb in Hr; [unfold GasFastestStep in *; cbn; split; [lia | exact I] | unfold GasFastestStep; lia].
   - destruct (back _ 2); [|discriminate]. apply lift_pair_inv in H as (c & l & Hr & ->).
-    apply gas_mem_words_lb in Hr; unfold GasFastestStep in *; cbn; split; try lia; exact I.
+    apply gas_mem_words_lb in Hr; [unfold GasFastestStep in *; cbn; split; [lia | exact I] | unfold GasFastestStep; lia].
   - (* extcodecopy *) destruct (back _ 3); [|discriminate]. apply lift_pair_inv in H as (c & l & Hr & ->).
-    apply gas_mem_words_lb in Hr; cbn; split; try lia; exact I.
+    apply gas_mem_words_lb in Hr; [cbn; split; [lia | exact I] | lia].
   - destruct (back _ 2); [|discriminate]. apply lift_pair_inv in H as (c & l & Hr & ->).
-    apply gas_mem_words_lb in Hr; unfold GasFastestStep in *; cbn; split; try lia; exact I.
+    apply gas_mem_words_lb in Hr; [unfold GasFastestStep in *; cbn; split; [lia | exact I] | unfold GasFastestStep; lia].
   - apply lift_pair_inv in H as (c & l & Hr & ->).
-    apply gas_mem_base_lb in Hr; unfold GasFastestStep in *; cbn; split; try lia; exact I.
+    apply gas_mem_base_lb in Hr; [unfold GasFastestStep in *; cbn; split; [lia | exact I] | unfold GasFastestStep; lia].
   - apply lift_pair_inv in H as (c & l & Hr & ->).
-    apply gas_mem_base_lb in Hr; unfold GasFastestStep in *; cbn; split; try lia; exact I.
+    apply gas_mem_base_lb in Hr; [unfold GasFastestStep in *; cbn; split; [lia | exact I] | unfold GasFastestStep; lia].
   - apply lift_pair_inv in H as (c & l & Hr & ->).
-    apply gas_mem_base_lb in Hr; unfold GasFastestStep in *; cbn; split; try lia; exact I.
+    apply gas_mem_base_lb in Hr; [unfold GasFastestStep in *; cbn; split; [lia | exact I] | unfold GasFastestStep; lia].
   - (* sstore *) destruct (back _ 0); [|discriminate]. destruct (back _ 1); [|discriminate].
     destruct (_ && _); [injection H as <-; cbn; unfold SstoreSetGas; split; [lia|exact I]|].
     destruct (_ && _); injection H as <-; cbn; unfold SstoreClearGas, SstoreResetGas; split; try lia; exact I.
   - (* log *) destruct (back _ 1); [|discriminate]. apply lift_pair_inv in H as (c & l & Hr & ->).
     apply gasLog_lb in Hr. unfold LogGas in Hr. cbn. split; [lia | exact I].
   - (* create *) apply lift_pair_inv in H as (c & l & Hr & ->).
-    apply gas_mem_base_lb in Hr; unfold CreateGas in *; cbn; split; try lia; exact I.
+    apply gas_mem_base_lb in Hr; [unfold CreateGas in *; cbn; split; [lia | exact I] | unfold CreateGas; lia].
   - (* call *)
     destruct (back _ 0) as [cc|]; [|discriminate]. destruct (back _ 1) as [a|]; [|discriminate].
     destruct (back (f_stack fr) 2) as [v|] eqn:Hv; [|discriminate].
@@ -254,11 +256,13 @@ Proof.
     assert (Hg2 : gt_Calls (ig_base (e_gt e)) + (if negb (Z.sgn v =? 0) then CallValueTransferGas else 0) <= g2).
     { subst g2. unfold CallNewAccountGas, CallValueTransferGas.
       repeat match goal with |- context[if ?b then _ else _] => destruct b end; lia. }
-    assert (0 <= g2) by (unfold CallValueTransferGas in Hg2; destruct (negb _); lia).
-    apply SafeAdd_ok in Hs; try lia.
-    apply call_gas_tail_spec in H as (Ht & Hc & _); [|lia].
-    split; [lia|]. split; [lia|]. split; [unfold CallValueTransferGas in *; destruct (negb _); lia|].
-    intros v' Hv' Hsg. injection Hv' as <-. destruct (Z.sgn v =? 0) eqn:Hz; [lia|]. cbn [negb] in Hg2. lia.
+    clearbody g2.
+    unfold CallValueTransferGas in *. cbn [gas_min].
+    destruct (Z.sgn v =? 0) eqn:Hz; cbn [negb] in Hg2;
+      (apply SafeAdd_ok in Hs; [|lia|lia]);
+      (apply call_gas_tail_spec in H as (Ht & Hc & _); [|lia]);
+      (split; [lia|]; split; [lia|]; split; [lia|]);
+      intros v' Hv' Hsg; injection Hv' as <-; lia.
   - (* callcode *)
     destruct (back _ 0) as [cc|]; [|discriminate].
     destruct (back (f_stack fr) 2) as [v|] eqn:Hv; [|discriminate].
@@ -266,11 +270,13 @@ Proof.
     apply memoryGasCost_nonneg in Hm.
     match type of H with context[SafeAdd ?a mg] => set (g2 := a) in *; destruct (SafeAdd g2 mg) as [g3 o] eqn:Hs end.
     destruct o; [discriminate|].
-    assert (0 <= g2) by (subst g2; unfold CallValueTransferGas; destruct (negb _); lia).
-    apply SafeAdd_ok in Hs; try lia.
-    apply call_gas_tail_spec in H as (Ht & Hc & _); [|lia].
-    split; [lia|]. split; [lia|]. split; [subst g2; unfold CallValueTransferGas in *; destruct (negb _); lia|].
-    intros v' Hv' Hsg. injection Hv' as <-. subst g2. destruct (Z.sgn v =? 0) eqn:Hz; [lia|]. cbn [negb] in *. lia.
+    assert (Hg2 : gt_Calls (ig_base (e_gt e)) + (if negb (Z.sgn v =? 0) then CallValueTransferGas else 0) <= g2) by (subst g2; lia).
+    clearbody g2. unfold CallValueTransferGas in *. cbn [gas_min].
+    destruct (Z.sgn v =? 0) eqn:Hz; cbn [negb] in Hg2;
+      (apply SafeAdd_ok in Hs; [|lia|lia]);
+      (apply call_gas_tail_spec in H as (Ht & Hc & _); [|lia]);
+      (split; [lia|]; split; [lia|]; split; [lia|]);
+      intros v' Hv' Hsg; injection Hv' as <-; lia.
   - (* return *) apply lift_pair_inv in H as (c & l & Hr & ->). apply memoryGasCost_nonneg in Hr. cbn. split; [lia|exact I].
   - (* revert *) apply lift_pair_inv in H as (c & l & Hr & ->). apply memoryGasCost_nonneg in Hr. cbn. split; [lia|exact I].
   - (* delegatecall *)
@@ -293,4 +299,5 @@ Proof.
     destruct (back _ 0); [|discriminate]. injection H as <-. cbn. split; [|exact I].
     destruct (e_eip150 e); [|lia].
     repeat match goal with |- context[if ?b then _ else _] => destruct b end; lia.
+  - discriminate.
 Qed.
